@@ -234,10 +234,9 @@ theorem mkTrackers_ok {v : TrackersVal} {T : Tiers}
   | list vs => simp only [mkTrackers] at hr; exact tiersAddAll_ok TiersOK_nil hr
   | other => simp only [mkTrackers] at hr; cases hr
 
-theorem tiersSetItem_ok {T : Tiers} {i : Int} {v : TierVal}
-    {w : Written} {out : Outcome} (hT : TiersOK isUrl T)
-    (hr : tiersSetItem isUrl T i v = (some w, out)) : ∃ T', TiersOK isUrl T' ∧ w = wOf T' := by
-  unfold tiersSetItem at hr
+theorem tiersSetItemT_ok {T T' : Tiers} {i : Int} {v : TierVal}
+    (hT : TiersOK isUrl T) (hr : tiersSetItemT isUrl T i v = .ok T') : TiersOK isUrl T' := by
+  unfold tiersSetItemT at hr
   split at hr
   · cases hr
   · rename_i tier hm
@@ -248,10 +247,43 @@ theorem tiersSetItem_ok {T : Tiers} {i : Int} {v : TierVal}
       · cases hr
       · rename_i k hk
         cases hr
-        refine ⟨_, TiersOK_splice hT (Nat.le_succ k) hc.1 ?_, rfl⟩
+        refine TiersOK_splice hT (Nat.le_succ k) hc.1 ?_
         exact UOK_known_subset hu
           (fun u hu' => (flatten_sublist (splice_nil_sublist T (Nat.le_succ k))).subset hu')
-    · cases hr; exact ⟨T, hT, rfl⟩
+    · cases hr; exact hT
+
+theorem tiersSetItem_ok {T : Tiers} {i : Int} {v : TierVal}
+    {w : Written} {out : Outcome} (hT : TiersOK isUrl T)
+    (hr : tiersSetItem isUrl T i v = (some w, out)) : ∃ T', TiersOK isUrl T' ∧ w = wOf T' := by
+  unfold tiersSetItem at hr
+  split at hr
+  · cases hr
+  · rename_i T' h1; cases hr; exact ⟨T', tiersSetItemT_ok hT h1, rfl⟩
+
+/-- reversing the order of good tiers gives good tiers -/
+theorem TiersOK_reverse {T : Tiers} (hT : TiersOK isUrl T) : TiersOK isUrl T.reverse := by
+  have hp : T.reverse.flatten.Perm T.flatten := (List.reverse_perm T).flatten
+  exact ⟨fun t ht => hT.1 t (List.mem_reverse.1 ht), hp.nodup_iff.2 hT.2.1,
+    fun u hu => hT.2.2 u (hp.subset hu)⟩
+
+/-- assigning a tier value whose URLs are all stored already (in any tier) assigns nothing:
+    every URL is filtered as known, the new tier is empty, `len(tier) > 0` fails -/
+theorem addAll_all_known {known items cs : List String}
+    (hg : ∀ c ∈ cs, Good isUrl c ∧ c ∈ known) : addAll isUrl known items cs = .ok items := by
+  induction cs with
+  | nil => simp [addAll]
+  | cons c cs ih =>
+    have h1 := hg c (by simp)
+    unfold addAll
+    simp only [filterIns, coerce_of_good h1.1, h1.2, or_true, if_true]
+    exact ih (fun x hx => hg x (by simp [hx]))
+
+theorem tiersSetItemT_stored {T : Tiers} {i : Int} {x : Tier} (hT : TiersOK isUrl T) (hx : x ∈ T) :
+    tiersSetItemT isUrl T i (.list x) = .ok T := by
+  have hg : ∀ c ∈ x, Good isUrl c ∧ c ∈ T.flatten := fun c hc =>
+    ⟨hT.2.2 c (List.mem_flatten.2 ⟨x, hx, hc⟩), List.mem_flatten.2 ⟨x, hx, hc⟩⟩
+  simp [tiersSetItemT, mkURLs, urlsReplace, coerceAll_id (fun c hc => (hg c hc).1),
+    addAll_all_known hg]
 
 /-- every operation on a tier (index and slice assignment included; an assignment that empties the
     tier removes it) hands good tiers to the callback -/
@@ -372,6 +404,9 @@ theorem tiersOp_ok {T : Tiers} {op : TOp} {w : Written}
       · cases hr
       · rename_i T' h2; cases hr; exact ⟨T', tiersAddAll_ok TiersOK_nil h2, rfl⟩
   | setItem i v => simp only [tiersOp] at hr; exact tiersSetItem_ok hT hr
+  | reverse =>
+    simp only [tiersOp] at hr
+    cases hr; exact ⟨T.reverse, TiersOK_reverse hT, rfl⟩
   | setSlice a b vs => simp [TOp.clean] at hop
   | tier ti op =>
     simp only [tiersOp] at hr
